@@ -91,6 +91,8 @@ class Trace:
         self.dump_addrs = []
         self.bound = 0
         self.chunk_results = []
+        self.ctx = {"lp": 2}
+        self.last_ep = None
 
     def send(self, line):
         i, m = self.pair.op(line)
@@ -98,21 +100,38 @@ class Trace:
         self.ops.append((line, i, m))
         if line.startswith("storage"):
             return i
+        is_call = line.startswith("call")
+        ep = None
+        if is_call:
+            c = parse_call_line(line)
+            ep = c["ep"]
+        if line.startswith("dump") and i.startswith("D "):
+            try:
+                self.ctx = canon.dump_ctx(canon.parse_D(i)[0])
+            except Exception:
+                pass
         if m is not None and not self.diverged:
+            rec = None
             if i.startswith("X") or m.startswith("X"):
-                self.disagreements.append((idx, ["protocol"]))
+                rec = dict(index=idx, kind="protocol", ep=ep, fields=["protocol"])
                 self.diverged = True
             elif line.startswith("dump"):
                 f = canon.diff_D(i, m)
                 if f:
-                    self.disagreements.append((idx, f))
+                    rec = dict(index=idx, kind="dump", ep=self.last_ep, fields=f)
                     self.diverged = True
             else:
-                f = canon.diff_R(i, m)
+                f = canon.diff_R(i, m, self.ctx)
                 if f:
-                    self.disagreements.append((idx, f))
+                    ri, rm = canon.parse_R(i), canon.parse_R(m)
+                    rec = dict(index=idx, kind="call", ep=ep, fields=f, impl_msg=ri.get("msg", ""),
+                               model_msg=rm.get("msg", ""))
                     if "st" in f:
                         self.diverged = True
+            if rec:
+                self.disagreements.append(rec)
+        if is_call and i.startswith("R ok") and not c["probe"]:
+            self.last_ep = ep
         return i
 
     def dump(self):
